@@ -283,6 +283,11 @@ def etas (c : Coord) (m0 pj0m : K) (nact : Nat) (ms : List K) : List K :=
 def massParams (c : Coord) (G m0 pj0m : K) (nact : Nat) (ms : List K) : List K :=
   (etas c m0 pj0m nact ms).map (fun e => e * G)
 
+/-- reb_integrator_mercurius_kepler_step (integrator_mercurius.c:292-298) and
+    reb_integrator_trace_whfast_step (integrator_trace.c:296-302): `r->G*particles[0].m`
+    for every particle 1 … N-1 (democratic heliocentric, in place on `r->particles`) -/
+def hybridMassParams (G m0 : K) (ms : List K) : List K := ms.map (fun _ => G * m0)
+
 end mass
 
 /-! ## comparisons and the two unbounded loops (`[ScalarO K]`) -/
